@@ -74,7 +74,8 @@ PROPS = {
                 extra_assumptions=[TW_NOTE]),
     "C09": spec([reg("C09", 60000, 45, 3000000, 700), tw(6000, 20, 300000, 150)],
                 extra_assumptions=[TW_NOTE]),
-    "C10": spec([reg("C10", 36000, 45, 2000000, 780)]),
+    "C10": spec([reg("C10", 36000, 45, 2000000, 700), tw(6000, 20, 300000, 150)],
+                extra_assumptions=[TW_NOTE]),
     "C14": spec([reg("C14", 40000, 45, 2000000, 780)]),
     "C15": spec([reg("C15", 60000, 45, 3000000, 780)],
                 level="fault_enumeration"),
